@@ -619,7 +619,8 @@ fn testdata_runs() -> Vec<Run> {
 
 pub fn run(o: &Opts) {
     let mut st = Stats::new();
-    let mut sh = Shards::new(&o.out, o.shards, HEADER);
+    // smaller files in the thorough tier: coqc memory grows with the size of the case literal
+    let mut sh = Shards::new(&o.out, if o.thorough { o.shards * 6 } else { o.shards }, HEADER);
     st.rule = "statement files for the three importers (Camt053 XML with payee captured from AddtlTxInf/AddtlNtryInf, code from AcctSvcrRef, currency attribute, charges, foreign amounts with rates; CSV in three layouts: amount/balance/note/category/commodity/charge columns, credit/debit with secondary amount and rate, template payee; Viseca text) whose text fields are drawn from an adversarial pool (`;`, LF/CR/CRLF, injected transaction text, leading `(` `*` `!`, double space, tab, `:tag:`, `key: value`, non-ASCII, outer white space incl. U+3000/U+00A0, 2 kB fields, empty) with varied amounts (grouping commas, currency prefix, scales 0-5) and configured precisions 0-30; import + to_double_entry, printed as ImportCmd does, re-read with parse_ledger; non-trivial = some text field holds a character outside [A-Za-z0-9 ]; distinct by input + configuration".into();
     st.assumptions.push("account names and the operator (charge payee) come from the configuration and are well-formed account names / plain text; only statement-file text is adversarial".into());
     st.assumptions.push("amount fields of the statement files are valid numbers (malformed amounts are property C06/C16 territory)".into());
